@@ -85,17 +85,19 @@ func H_C18_window(test, par, n, extra int) {
 	vReach("end")
 }
 
-// results do not depend on what was tested before: T(x), then T on another sequence of another length, then T(x) again
-func H_C18_history(test, par, n1, n2 int) {
+// results do not depend on what was tested before: T(y), p1 = T(x), T(z), p2 = T(x) with three different lengths
+func H_C18_history(test, par, n1, n2, n3 int) {
 	x := vBits(n1)
 	y := vBits(n2)
+	z := vBits(n3)
 	vWatch()
-	p1, q1, r1, s1 := c17Run(test, x, par)
 	c17Run(test, y, par)
+	p1, q1, r1, s1 := c17Run(test, x, par)
+	c17Run(test, z, par)
 	p2, q2, r2, s2 := c17Run(test, x, par)
-	vClose(p1, p2, 0, "same result whatever was tested in between (P)")
-	vClose(q1, q2, 0, "same result whatever was tested in between (Q)")
-	vClose(r1, r2, 0, "same result whatever was tested in between (third value)")
-	vClose(s1, s2, 0, "same result whatever was tested in between (fourth value)")
+	vClose(p1, p2, 0, "same result whatever was tested before (P)")
+	vClose(q1, q2, 0, "same result whatever was tested before (Q)")
+	vClose(r1, r2, 0, "same result whatever was tested before (third value)")
+	vClose(s1, s2, 0, "same result whatever was tested before (fourth value)")
 	vReach("end")
 }
